@@ -31,6 +31,10 @@ type c04Step struct {
 	State     string `json:"state"` // signaling state at quiescence after the call
 	Completed bool   `json:"completed"`
 	Created   bool   `json:"created"` // X created an offer or answer in this call
+	// NoNeed: at quiescence after the call the connection is open and stable and the W3C
+	// "check if negotiation is needed" steps (pion's own checkNegotiationNeeded, recomputed from
+	// scratch by the harness) say that nothing has to be negotiated: a need raised earlier is gone
+	NoNeed bool `json:"no_need,omitempty"`
 }
 
 type c04Obs struct {
@@ -174,6 +178,9 @@ func c04Run(t *testing.T, hist []string) (*c04Obs, *vsched.Result) {
 			obs.cur = i
 			vsched.Quiesce()
 			st.State = x.SignalingState().String()
+			if !closed && st.State == "stable" {
+				st.NoNeed = !x.checkNegotiationNeeded()
+			}
 			obs.Steps = append(obs.Steps, st)
 		}
 		_ = x.Close()
@@ -283,15 +290,24 @@ func c04Judge(hist []string, o *c04Obs) [][2]string {
 				fired = true
 			}
 		}
-		// an invocation still pending from before the change (same epoch) also announces it
+		// an invocation still pending from before the change (same epoch) also announces it - unless the
+		// need it announced had gone in between (a quiescent stable point with nothing to negotiate, e.g.
+		// after a RemoveTrack that undid the change): the flag is cleared there and the new change needs
+		// its own event
 		if !fired {
 			e := stepEpoch[j]
+			lastNoNeed := -2
+			for k := 0; k < i; k++ {
+				if o.Steps[k].NoNeed {
+					lastNoNeed = k
+				}
+			}
 			for _, f := range o.Fires {
 				fe := 0
 				if f.AfterStep >= 0 {
 					fe = stepEpoch[f.AfterStep]
 				}
-				if fe == e && f.AfterStep < i {
+				if fe == e && f.AfterStep < i && f.AfterStep > lastNoNeed {
 					fired = true
 				}
 			}
@@ -317,7 +333,7 @@ func TestVerifC04(t *testing.T) {
 	defer c.Finish(t)
 	vsched.ICEMode.Store(vsched.ICEFailFast)
 	vpPool(t)
-	depth := c.Pick(4, 6)
+	depth := c.Pick(5, 6)
 	c.Rule(fmt.Sprintf("the full tree of call histories to depth %d over %v (AddTrack audio/video, RemoveTrack, AddTransceiverFromKind, CreateDataChannel, the four halves of local- and peer-initiated offer/answer exchanges with a live peer, a rejected SetRemoteDescription, Close; calls not applicable in the current state prune the branch); each history on fresh real PeerConnections under the controlled scheduler's default schedule with quiescence after every call; states = (signaling state, pending-fire, counts) reached; distinct = (history shape, fire pattern)", depth, c04Alphabet))
 	c.Assume("ICE connectivity fails at once (seam), so queued transport work finishes; the peer is a real PeerConnection driven in lock-step")
 	if raw, ok := c.ReplayCase(); ok {
